@@ -98,7 +98,7 @@ def _drive(args):
     out = []
     for (tid, n, k, kind, enc, blocked) in cases:
         data = build_file(n, k, kind, enc, blocked, bc, seed)
-        events = [ipmc.iev(1, 'given', b=data)] + ipmc.read_all_events(1, data, enc, bc, blocked)
+        events = [ipmc.iev(1, 'given', b=data)] + ipmc.read_all_events(1, data, enc, bc, blocked, style=tid % 4)
         last = events[-1]
         detail = None
         if last.get('_exc') is not None and last['out'] == 'liberr':
@@ -112,7 +112,9 @@ def _drive(args):
         for e in events:
             e.pop('_exc', None)
         out.append({'tid': tid, 'loc': True, 'strict': True, 'cols': [], 'insts': [{'blk': blocked}], 'events': events,
-                    '_desc': '%d records, fault %s in record %d, %s, %s' % (n, kind, k, enc, 'blocked' if blocked else 'vbs'),
+                    '_desc': '%d records, fault %s in record %d, %s, %s, reader consumed by %s' % (
+                        n, kind, k, enc, 'blocked' if blocked else 'vbs',
+                        ('next() calls', 'next() then a for loop', 'a for loop left with break and resumed', 'one for loop')[tid % 4]),
                     '_detail': detail, '_enc': enc})
     return out
 
